@@ -402,6 +402,11 @@ func addFileWatch(data *ruleData, rule *FileWatchRule) error {
 func addKeys(data *ruleData, keys []string) error {
 	if len(keys) > 0 {
 		key := strings.Join(keys, string(rune(keySeparator)))
+		if key == "" {
+			// Like auditctl, ignore an empty key (-k ''): a key filter with
+			// an empty value cannot be expressed in the text form of a rule.
+			return nil
+		}
 		if err := addFilter(data, "key", "=", key); err != nil {
 			return fmt.Errorf("failed to add keys [%v]: %w", strings.Join(keys, ","), err)
 		}
